@@ -176,7 +176,10 @@ func verifUniverse() *verifU {
 	zeroable := types.CoinID(verifConfig("zeroable"))
 	bal := func(who string, a types.Address, c types.CoinID) {
 		var v *big.Int
-		if who == "A" && c == zeroable && verifConfig("zeroableOn") == 1 {
+		if who == "A" && verifConfig("concreteBalA") == 1 {
+			// config "concreteBalA": A's balances are concrete (multi-hop routes)
+			v = new(big.Int).Add(new(big.Int).Mul(big.NewInt(100+int64(c)), new(big.Int).Exp(big.NewInt(10), big.NewInt(18), nil)), big.NewInt(int64(c)+1))
+		} else if who == "A" && c == zeroable && verifConfig("zeroableOn") == 1 {
 			v = verifBigNN("bal." + who + "." + c.String())
 		} else {
 			v = verifBigPos("bal." + who + "." + c.String())
@@ -230,6 +233,37 @@ func verifUniverse() *verifU {
 		vol[verifCoinToken].Add(vol[verifCoinToken], r2)
 		verifSeedPool(st, verifCoinToken, 0, r2, r0)
 	}
+	// config "route5": two more tokens X (4) and Y (5) and the pools (2,4), (4,5),
+	// (5,2), all concrete, so that the cyclic route 2 -> 4 -> 5 -> 2 -> 0 exists
+	// (with pool20).  Only A holds X and Y.
+	if verifConfig("route5") == 1 {
+		e := func(n, d int64) *big.Int {
+			v := new(big.Int).Mul(big.NewInt(n), new(big.Int).Exp(big.NewInt(10), big.NewInt(18), nil))
+			return v.Add(v, big.NewInt(d))
+		}
+		x, y := types.CoinID(4), types.CoinID(5)
+		volX, volY := big.NewInt(0), big.NewInt(0)
+		r24a, r24b := e(5000, 3), e(7000, 1)
+		r45a, r45b := e(6000, 7), e(4000, 9)
+		r52a, r52b := e(3000, 11), e(8000, 5)
+		vol[verifCoinToken].Add(vol[verifCoinToken], r24a)
+		vol[verifCoinToken].Add(vol[verifCoinToken], r52b)
+		volX.Add(volX, r24b).Add(volX, r45a)
+		volY.Add(volY, r45b).Add(volY, r52a)
+		verifSeedPool(st, verifCoinToken, x, r24a, r24b)
+		verifSeedPool(st, x, y, r45a, r45b)
+		verifSeedPool(st, y, verifCoinToken, r52a, r52b)
+		bx, by := e(10, 1), e(20, 2)
+		st.Accounts.SetBalance(u.A, x, bx)
+		st.Accounts.SetBalance(u.A, y, by)
+		volX.Add(volX, bx)
+		volY.Add(volY, by)
+		ownerA := u.A
+		big1 := e(1000000000, 0)
+		st.Coins.CreateToken(x, verifSym("XXX"), "token x", true, true, volX, big1, &ownerA)
+		st.Coins.CreateToken(y, verifSym("YYY"), "token y", true, true, volY, big1, &ownerA)
+		u.coins = append(u.coins, x, y)
+	}
 	// coins: volume = sum of holdings; reserve >= minimum; volume <= max supply
 	crr := verifU32Range("coin1.crr", 10, 100)
 	res1 := verifBigPos("coin1.reserve")
@@ -241,7 +275,9 @@ func verifUniverse() *verifU {
 	max2 := verifBigPos("coin2.max")
 	verifAssume(vol[verifCoinToken].Cmp(max2) <= 0)
 	st.Coins.CreateToken(verifCoinToken, verifSym("TOK"), "token", true, true, vol[verifCoinToken], max2, &ownerA)
-	if verifConfig("lp10") != 1 {
+	if verifConfig("route5") == 1 {
+		st.App.SetCoinsCount(5)
+	} else if verifConfig("lp10") != 1 {
 		st.App.SetCoinsCount(2)
 	}
 	return u
